@@ -124,8 +124,8 @@ def gen_seq(rng, files, good, maxops):
                 opened.add(group[0])
             continue
         if k == "O":
-            if group.get(c, c) in opened and rng.random() > 0.04:
-                continue            # re-opening is a known finding: keep it rare
+            if group.get(c, c) in opened and rng.random() > 0.6:
+                continue            # re-opening an open context: the first format must be released
             f = rng.choice(good) if rng.random() < 0.7 else rng.randrange(nf)
             ops.append("O%d:%d" % (c, f))
             opened.add(group.get(c, c))
@@ -147,8 +147,8 @@ def gen_seq(rng, files, good, maxops):
         elif k == "B":
             ops.append("B%d" % rng.randrange(4))
         elif k == "V":
-            if c in owndict and rng.random() > 0.1:
-                continue            # known finding (attributes created through a clone's dictionary)
+            if c in owndict and rng.random() > 0.7:
+                continue            # attributes created through a clone's own dictionary
             ops.append("V%d" % c)
         elif k == "T":
             ops.append("T%d:%d" % (c, rng.randrange(5)))
@@ -304,6 +304,20 @@ def check(run):
     for i in range(150 if quick else 3000):
         ops = gen_badpages(run.rng, badaddrs, goodaddrs, 18 if quick else 40)
         seqs.append(("seq %s : %s" % (badpath, " ".join(ops)), [badpath], ops))
+    # re-open: every ordered pair of files, with and without clones, with and without the first
+    # format's page-map bitmap still held by the application
+    allfiles = [dumps[n] for n in names]
+    pairs = [(a, b) for a in range(len(allfiles)) for b in range(len(allfiles))]
+    run.rng.shuffle(pairs)
+    for a, b in pairs[:(60 if quick else len(pairs))]:
+        files = [allfiles[a], allfiles[b]]
+        hold = run.rng.random() < 0.5
+        cl = run.rng.choice(["", "", "C0:1:0", "C0:1:1"])
+        ops = ["N0", "O0:0", "R0:1:0x1000:64", "G0:2:%d" % run.rng.randrange(2)] + ([] if hold else ["B2"]) + \
+              ([cl] if cl else []) + ["O0:1", "R0:1:0x1000:64", "G0:3:%d" % run.rng.randrange(3)] + \
+              (["R1:1:0x1000:64", "V1", "M1:%#x" % ROOT, "R1:2:0x0:8"] if cl else []) + \
+              (["O0:0", "R0:1:0x0:64"] if run.rng.random() < 0.3 else []) + ["Z%d" % run.rng.randrange(6)]
+        seqs.append(("seq %s : %s" % ("|".join(files), " ".join(ops)), files, ops))
     # failing (and surviving) opens of corrupted files of every format: one field of a seed dump
     # set to a bad value or the file cut at a structure boundary (the parse agent's enumerator);
     # every corruption of a flattened file's segment headers; ELF cores whose notes are rejected
